@@ -324,4 +324,47 @@ theorem yMatrix_column_out (o : Ops α) (signals : List (List α)) (row column :
     (h : signals.length ≤ column) : yMatrix o signals row column = o.zero := by
   simp [yMatrix, List.getD_eq_getElem?_getD, List.getElem?_eq_none h]
 
+/-! ### 4. The sweep keeps the first strict minimum -/
+
+/-- The sweep of `ls_deconvolution` on the list of `(residual sum, input)` of the runs. -/
+def argminLoop : List (α × List α) → α → List α → List α
+  | [], _, best => best
+  | (r, inp) :: rest, bestR, best =>
+    if o.lt r bestR then argminLoop rest r inp else argminLoop rest bestR best
+
+/-- "Every grid point's run is ok" gives the list of the runs' results. -/
+theorem runs_exist {β γ : Type} (f : β → Outcome Unit γ) (g : List β)
+    (h : ∀ p ∈ g, ∃ t, f p = .ok t) : ∃ runs : List γ, g.map f = runs.map .ok := by
+  induction g with
+  | nil => exact ⟨[], rfl⟩
+  | cons p rest ih =>
+    obtain ⟨t, ht⟩ := h p (List.mem_cons_self)
+    obtain ⟨runs, hr⟩ := ih (fun q hq => h q (List.mem_cons_of_mem _ hq))
+    exact ⟨t :: runs, by simp [ht, hr]⟩
+
+/-- When all runs are ok the sweep is `argminLoop` on their `(residual sum, input)`. -/
+theorem lsLoop_eq_argminLoop (b : Bool) (signal resp : List α) (g : List (Nat × Nat))
+    (runs : List (List α × α × List α))
+    (hruns : g.map (fun p => nnGreedy o b signal resp p.1 p.2) = runs.map .ok)
+    (bestR : α) (best : List α) :
+    lsLoop o b signal resp g bestR best
+      = .ok (argminLoop o (runs.map fun t => (t.2.1, t.2.2)) bestR best) := by
+  induction g generalizing runs bestR best with
+  | nil =>
+    cases runs with
+    | nil => rfl
+    | cons t ts => simp at hruns
+  | cons p rest ih =>
+    obtain ⟨off, la⟩ := p
+    cases runs with
+    | nil => simp at hruns
+    | cons t ts =>
+      obtain ⟨res, r, inp⟩ := t
+      simp only [List.map_cons, List.cons.injEq] at hruns
+      obtain ⟨h1, h2⟩ := hruns
+      simp only [lsLoop, h1, List.map_cons, argminLoop]
+      split
+      · exact ih ts h2 r inp
+      · exact ih ts h2 bestR best
+
 end AlphaG.Deconv
